@@ -34,6 +34,9 @@ META = {
         "xsdata.utils.namespaces:generate_prefix", "xsdata.utils.namespaces:load_prefix", "xsdata.utils.namespaces:clean_prefixes",
     ],
     "bounds": [
+        "writer_text / writer_attr (value-symbolic): XmlEventWriter.set_characters and add_attribute + flush_start with xml.sax.saxutils' escape / quoteattr executed on a symbolic string of <= 2 (text; thorough 3) / 1 (attribute; thorough tier only) "
+        "arbitrary XML 1.0 characters into a Python sink; what an XML 1.0 processor reads back (entity references, line-end and attribute-value normalisation, Char production: textpath.read_chardata) must be the string",
+        "real_text: strings of 1-2 code points from 29 class representatives at 10 places through both real writers and both real handlers (selector driven, concrete runs)",
         "model pool harness/models.py (32 classes), instance builders harness/specs.py: per builder one or two value-symbolic focus fields "
         "(first int |x| < 10**5, second int -10 < x < 100 - full int lexical range is C05's job -, str <= 2 code points, bool) and selectors into concrete pools for the rest",
         "configurations: writer x handler x 8 user prefix maps x indent x ignore_default_attributes, expanded by the runner into partitions "
@@ -183,6 +186,68 @@ def explain_real_text(c0, c1, place):
     return textpath.write_check(_TP_PROP, textpath.PLACES[place], c0, c1, _KNOWN_NONXML)
 
 
+# ---------------------------------------------------------------------------------------------------------------------
+# VALUE-SYMBOLIC: the native writer's own text layer (XmlEventWriter.set_characters / flush_start + xml.sax.saxutils escape and
+# quoteattr, all Python) executed on a symbolic string into a Python sink; oracle = the XML 1.0 reading model of textpath.
+import io as _io  # noqa: E402
+
+
+class _Sink(_io.TextIOBase):
+    def __init__(self):
+        self.parts = []
+
+    def write(self, s):
+        self.parts.append(s)
+        return len(s)
+
+
+def _native_writer():
+    from xml.sax.saxutils import XMLGenerator
+
+    from xsdata.formats.dataclass.serializers.writers import XmlEventWriter
+
+    sink = _Sink()
+    w = XmlEventWriter(config=SerializerConfig(xml_declaration=False), output=sink, ns_map={})
+    w.handler = XMLGenerator(out=sink, encoding="UTF-8", short_empty_elements=True)
+    return w, sink
+
+
+def _same_str(a, b):
+    return a is not None and len(a) == len(b) and all([ord(x) == ord(y) for x, y in zip(a, b)])
+
+
+def writer_text(s: str) -> bool:
+    """
+    pre: 1 <= len(s) <= PART.get("wlen", 2)
+    pre: all([textpath._xml_cp(ord(c)) for c in s])
+    post: _
+    """
+    w, sink = _native_writer()
+    w.set_characters(s)
+    return result(_same_str(textpath.read_chardata("".join(sink.parts)), s))
+
+
+def writer_attr(s: str) -> bool:
+    """
+    pre: len(s) <= PART.get("wlen", 2)
+    pre: all([textpath._xml_cp(ord(c)) for c in s])
+    post: _
+    """
+    w, sink = _native_writer()
+    w.start_tag("a")
+    w.add_attribute("k", s)
+    w.flush_start(False)
+    raw = "".join(sink.parts)  # <a k="..."  or  <a k='...'  (XMLGenerator keeps the closing '>' pending)
+    if len(raw) < 7:
+        return result(False)
+    quote = raw[5]
+    if ord(quote) != 0x22 and ord(quote) != 0x27:
+        return result(False)
+    if ord(raw[-1]) != ord(quote):
+        return result(False)
+    return result(_same_str(textpath.read_chardata(raw[6:-1], True, quote), s))
+
+
 def plan(tier):
     jobs = []
     if tier == "quick":
@@ -208,6 +273,8 @@ def plan(tier):
                                                "slen": 1 if name in ("unions_str", "compound") else 2, "imax": 1000}, 900, 40))
     for place in range(len(textpath.PLACES)):
         jobs.append(Job("real_text", {"place": place}, 300, 30, note="real writers / parsers on text; code points by selector"))
+    for fn, wlen in (("writer_text", 2 if tier == "quick" else 3),) + (() if tier == "quick" else (("writer_attr", 1),)):
+        jobs.append(Job(fn, {"wlen": wlen}, 300 if tier == "quick" else 2400, 60, note="value-symbolic: native writer text layer on a symbolic string (any XML 1.0 characters) vs the XML 1.0 reading model"))
     return jobs
 
 
